@@ -283,10 +283,16 @@ def common_summaries():
     def identity(ex, st, fn, argv):
         return [(st, deref(ex, st, argv[0]))]
 
-    @reg(r'<String as PartialEq(<.*>)?>::eq$|<str as PartialEq(<.*>)?>::eq$|<&str as PartialEq(<.*>)?>::eq$')
+    @reg(r'<&?(std::string::)?String as PartialEq(<.*>)?>::(eq|ne)$|<&?str as PartialEq(<.*>)?>::(eq|ne)$')
     def str_eq(ex, st, fn, argv):
         a, b = deref(ex, st, argv[0]), deref(ex, st, argv[1])
-        return [(st, Bool(a.s == b.s))]
+        if not isinstance(a, Str) or not isinstance(b, Str):
+            raise Unsupported(f"string comparison on {a!r} / {b!r} in {fn}")
+        return [(st, Bool(a.s == b.s if fn.endswith('eq') else a.s != b.s))]
+
+    @reg(r'^(std::string::)?String::new$')
+    def string_new(ex, st, fn, argv):
+        return [(st, Str(str_lit('""')))]
 
     @reg(r'^Box::<.*>::new$')
     def box_new(ex, st, fn, argv):
